@@ -27,7 +27,9 @@ Example zero_extent : slice [0; 3] (pad [4; 5] (TArr [])) = TArr [] /\ wf [0; 3]
 Proof. split; [reflexivity|cbn; auto]. Qed.
 
 (* ---- 2. send_tensors: scalar fast path, equal-size fast path, pad / gather / trim.
-   [tens_okx fx d z t]: t is well formed, has dtype z and -- unless fx_d10 (ndim negotiation) -- ndim d;
+   [tens_okx fx d z t]: t is well formed, has dtype z -- unless fx_d10 && fx_dt (dtype negotiation,
+   fixes/sync-dtype.patch: then ANY mix of dtypes is delivered, each tensor in its own dtype) -- and -- unless
+   fx_d10 (ndim negotiation) -- ndim d;
    with fx_d10 tensors of ANY mix of ranks are delivered, each with its own shape ---- *)
 Theorem send_tensors_lossless :
   forall (fx : fixes) (g : list nat) (dst : option nat) (ts : nat -> tensor) (d : nat) (z : Z),
@@ -199,7 +201,7 @@ Theorem dict_unequal_keys_refuted :
     = Some [Ok (Some out0); Ok (Some out1)]
     /\ get_key ("m","x") (nth 1 out0 []) = Some (GD [("a", sc 10)])
     /\ get_key ("m","x") (nth 0 out1 []) = Some (GD [("b", sc 1)]).
-Proof. intros [a b c []]; do 2 eexists; (split; [vm_compute; reflexivity|]); split; reflexivity. Qed.
+Proof. intros [a b c [] []]; do 2 eexists; (split; [vm_compute; reflexivity|]); split; reflexivity. Qed.
 
 (* D9: sub-group [1;2] of a world of 3; the member with data has group rank 1, which
    _sync_dtype_and_shape hands to broadcast_object_list as a GLOBAL rank: global rank 1 is the
@@ -225,7 +227,7 @@ Qed.
 Theorem ndim_mismatch_refuted :
   forall fx : fixes, fx_d10 fx = false ->
   run_all (respond [0;1]) (map (fun i => send_tensors fx [0;1] None i (nth i [sc 1; v1 [1;2]%Z] (sc 0))) (seq 0 2)) = None.
-Proof. intros [a b c d] E. cbn in E. subst d. vm_compute. reflexivity. Qed.
+Proof. intros [a b c d []] E; cbn in E; subst d; vm_compute; reflexivity. Qed.
 
 (* ---- 9. the repaired variant on exactly the refuted witnesses, and the headline corollaries ---- *)
 (* any duplicate-free group, any named rank d < n, any mix of ndims *)
@@ -253,7 +255,7 @@ Proof. exact SynclibP.list_sync_lossless_fixed. Qed.
 Theorem list_all_empty_fixed :
   exists out,
     run_all (respond [0;1])
-      (map (fun i => sync_states (mkFx true false false false) [0;1] None i 2 [("m", [("x", SList [])])] [("m","x")]) (seq 0 2))
+      (map (fun i => sync_states (mkFx true false false false false) [0;1] None i 2 [("m", [("x", SList [])])] [("m","x")]) (seq 0 2))
     = Some [Ok (Some out); Ok (Some out)]
     /\ get_key ("m","x") (nth 0 out []) = Some (GL []) /\ get_key ("m","x") (nth 1 out []) = Some (GL [])
     /\ run_all (respond [0;1])
@@ -288,14 +290,14 @@ Qed.
    tensor as a 1-D tensor *)
 Theorem ndim_mismatch_fixed :
   let ts i := nth i [sc 1; v1 [1;2]%Z] (sc 0) in
-  run_all (respond [0;1]) (map (fun i => send_tensors (mkFx false false false true) [0;1] None i (ts i)) (seq 0 2))
+  run_all (respond [0;1]) (map (fun i => send_tensors (mkFx false false false true false) [0;1] None i (ts i)) (seq 0 2))
   = Some [Ok (Some [sc 1; v1 [1;2]%Z]); Ok (Some [sc 1; v1 [1;2]%Z])]
   /\ run_all (respond [0;1]) (map (fun i => send_tensors V_fixed [0;1] None i (ts i)) (seq 0 2))
      = Some [Ok (Some [sc 1; v1 [1;2]%Z]); Ok (Some [sc 1; v1 [1;2]%Z])]
   /\ (forall i, i < 2 -> tens_okx V_fixed 0 0 (ts i)).
 Proof.
   split; [vm_compute; reflexivity|]. split; [vm_compute; reflexivity|].
-  intros i Hi. destruct i as [|[|i]]; try lia; (split; [cbn; auto|split; [reflexivity|left; reflexivity]]).
+  intros i Hi. destruct i as [|[|i]]; try lia; (split; [cbn; auto|split; [left; reflexivity|left; reflexivity]]).
 Qed.
 
 (* three ranks, ndims 0 / 2 / 1 incl. a zero extent, rank 2 receives *)
@@ -304,6 +306,40 @@ Example ndim_mix_example :
   run_all (respond [0;1;2]) (map (fun i => send_tensors V_fixed [0;1;2] (Some 2) i (ts i)) (seq 0 3))
   = Some [Ok None; Ok None; Ok (Some [sc 7; ex_ts 1; v1 [1;2;3]%Z])].
 Proof. vm_compute. reflexivity. Qed.
+
+(* ---- 10. dtype negotiation (fx_dt on top of fx_d10; fixes/sync-dtype.patch) ---- *)
+(* C02-state-dtype-follows-data at synclib level: a float32 scalar next to a float64 scalar: the ranks issue
+   all_gather with different dtypes (every variant without the dtype negotiation) *)
+Theorem dtype_mismatch_refuted :
+  forall fx : fixes, fx_d10 fx && fx_dt fx = false ->
+  run_all (respond [0;1]) (map (fun i => send_tensors fx [0;1] None i (nth i [sc 1; mkT 1 [] (TSc (VZ 2))] (sc 0))) (seq 0 2)) = None.
+Proof. intros [a b c [] []] E; try discriminate E; vm_compute; reflexivity. Qed.
+
+(* with the negotiation: any duplicate-free group, any named rank, tensors of ANY per-rank ndim AND dtype:
+   every receiver obtains, per sending rank, exactly the tensor that rank sent -- shape, DTYPE and content.
+   (The model's cast relabels the dtype of exact values: it mirrors ``.to(dtype)`` as long as every value is
+   representable in the transport dtype -- float32 / float64 / bool / integers below 2^53; see Models/Synclib.v.) *)
+Theorem send_tensors_lossless_any_dtype :
+  forall (fx : fixes) (g : list nat) (dst : option nat) (ts : nat -> tensor),
+    let n := List.length g in
+    fx_d10 fx = true -> fx_dt fx = true ->
+    n > 0 -> dst_ok fx g dst -> (forall i, i < n -> wf (shp (ts i)) (dat (ts i))) ->
+    run_all (respond g) (map (fun i => send_tensors fx g dst i (ts i)) (seq 0 n))
+    = Some (map (fun i => Ok (if receives dst i then Some (map ts (seq 0 n)) else None)) (seq 0 n)).
+Proof. exact SynclibP.send_tensors_lossless_any_dtype. Qed.
+
+(* the refuted witness repaired, and a mix of int64 / float32 / bool with ndims 1 / 0 / 2 travelling as float64 *)
+Example dtype_mismatch_fixed :
+  let ts i := nth i [sc 1; mkT 1 [] (TSc (VZ 2))] (sc 0) in
+  run_all (respond [0;1]) (map (fun i => send_tensors V_fixed [0;1] None i (ts i)) (seq 0 2))
+  = Some [Ok (Some [ts 0; ts 1]); Ok (Some [ts 0; ts 1])].
+Proof. vm_compute. reflexivity. Qed.
+Example dtype_mix_example :
+  let ts i := nth i [mkT 3 [2] (TArr [TSc (VZ (-3)); TSc (VZ 5)]); sc 1; mkT 4 [1; 2] (TArr [TArr [TSc (VZ 1); TSc (VZ 0)]])] (sc 0) in
+  run_all (respond [0;1;2]) (map (fun i => send_tensors V_fixed [0;1;2] (Some 2) i (ts i)) (seq 0 3))
+  = Some [Ok None; Ok None; Ok (Some [ts 0; ts 1; ts 2])]
+  /\ transport [3; 0; 4]%Z = 1%Z /\ transport [0; 1]%Z = 1%Z /\ transport [5; 2]%Z = 2%Z /\ transport [4; 0]%Z = 0%Z.
+Proof. split; [vm_compute; reflexivity|repeat split]. Qed.
 
 Print Assumptions traced_runner_agrees.
 Print Assumptions pad_slice_roundtrip.
@@ -326,3 +362,5 @@ Print Assumptions list_all_empty_fixed.
 Print Assumptions subgroup_root_fixed.
 Print Assumptions subgroup_dst_fixed.
 Print Assumptions ndim_mismatch_fixed.
+Print Assumptions dtype_mismatch_refuted.
+Print Assumptions send_tensors_lossless_any_dtype.
